@@ -149,6 +149,22 @@ func (matrix *DenseInt8Matrix) SLICE(rfrom, rto, cfrom, cto int) *DenseInt8Matri
   m.cols = cto - cfrom
   return &m
 }
+func (matrix *DenseInt8Matrix) AsDenseInt8Vector() DenseInt8Vector {
+  if matrix.rows < matrix.rowMax || matrix.cols < matrix.colMax {
+    // matrix is a slice of a larger matrix, return the elements
+    // of the slice
+    n, m := matrix.Dims()
+    v := make([]int8, n*m)
+    for i := 0; i < n; i++ {
+      for j := 0; j < m; j++ {
+        v[i*m + j] = matrix.values[matrix.index(i, j)]
+      }
+    }
+    return DenseInt8Vector(v)
+  } else {
+    return DenseInt8Vector(matrix.values)
+  }
+}
 /* matrix interface
  * -------------------------------------------------------------------------- */
 func (matrix *DenseInt8Matrix) CloneMatrix() Matrix {
@@ -250,7 +266,7 @@ func (matrix *DenseInt8Matrix) Tip() {
   matrix.rowMax, matrix.colMax = matrix.colMax, matrix.rowMax
 }
 func (matrix *DenseInt8Matrix) AsVector() Vector {
-  return DenseInt8Vector(matrix.values)
+  return matrix.AsDenseInt8Vector()
 }
 func (matrix *DenseInt8Matrix) storageLocation() uintptr {
   return uintptr(unsafe.Pointer(&matrix.values[0]))
@@ -339,7 +355,7 @@ func (matrix *DenseInt8Matrix) IsSymmetric(epsilon float64) bool {
   return true
 }
 func (matrix *DenseInt8Matrix) AsConstVector() ConstVector {
-  return DenseInt8Vector(matrix.values)
+  return matrix.AsDenseInt8Vector()
 }
 /* implement ScalarContainer
  * -------------------------------------------------------------------------- */
